@@ -467,8 +467,43 @@ func exhaustive(t *testing.T) {
 		}
 	}
 	run.Exhaustive("wrapper payload lengths 0..N x 6 nonce leading-zero classes", n)
-	maxBlocks := run.Pick(64, 1024)
+	// every number of leading zero bytes, up to the nonce that is zero altogether (a legal 128 / 256-bit value)
 	m := int64(0)
+	for zn := 0; zn <= 32; zn++ {
+		for zs := 0; zs <= 16; zs++ {
+			if zn != 0 && zn != 32 && zs != 0 && zs != 16 {
+				continue
+			}
+			for _, l := range []int{0, 12, 304} {
+				c := Case{Kind: "wrap", NN: det(run.Seed+uint64(zn)*7+1, 32), SN: det(run.Seed+uint64(zs)*13+100, 16), Data: det(run.Seed+uint64(l)+3, l), Pad: det(uint64(l)+6, 16), ReuseNonceObjects: (zn+zs)%2 == 1}
+				for i := 0; i < zn; i++ {
+					c.NN[i] = 0
+				}
+				if zn < 32 {
+					c.NN[zn] |= 1
+				}
+				for i := 0; i < zs; i++ {
+					c.SN[i] = 0
+				}
+				if zs < 16 {
+					c.SN[zs] |= 1
+				}
+				record(c)
+				if zn == 32 || zs == 16 {
+					run.Class("wrap:nonce-is-zero", 1)
+				}
+				m++
+				if err := oracle(c); err != nil {
+					p := run.ViolationNamed(fmt.Sprintf("wrap-len%d-nnz%d-snz%d", l, zn, zs), c, err.Error())
+					t.Errorf("violation (replay %s): %v", p, err)
+					return
+				}
+			}
+		}
+	}
+	run.Exhaustive("nonce leading-zero bytes 0..32 x {0,16} and {0,32} x 0..16, three payload lengths", m)
+	maxBlocks := run.Pick(64, 1024)
+	m = int64(0)
 	for b := 1; b <= maxBlocks; b++ {
 		c := Case{Kind: "raw", Key: det(run.Seed+uint64(b), 32), IV: det(run.Seed+uint64(b)+1000, 32), Data: det(run.Seed+uint64(b)+2000, 16*b)}
 		record(c)
